@@ -327,3 +327,21 @@ theorem wallet_multisig_accepts {D : Type} (O : Oracles D) (d : D) (m : Nat) (pu
 
 
 end ElaVerif.WalletCodec
+
+namespace ElaVerif.WalletCodec
+
+theorem signByM_spec (m : Nat) : ∀ (held : List Bool) (j : Nat), j ≤ m →
+    signByM m held j = min (j + held.count true) (m + 1)
+  | [], j, h => by simp [signByM]; omega
+  | b :: rest, j, h => by
+    unfold signByM
+    cases b
+    · simp only [Bool.not_false, if_true]
+      rw [signByM_spec m rest j h]; simp
+    · simp only [Bool.not_true, Bool.false_eq_true, if_false]
+      by_cases hj : j = m
+      · rw [if_pos hj]; subst hj; simp [List.count_cons]
+      · rw [if_neg hj, signByM_spec m rest (j + 1) (by omega)]
+        simp [List.count_cons]; omega
+
+end ElaVerif.WalletCodec
